@@ -25,9 +25,10 @@ MCMismatchDetails(m) == CASE m = "m0" -> {}
                           [] m = "m2" -> {Name("traceback", 0), Name("Failed expectation", 0)}
 
 KindsCore == {"fail", "err", "skip", "xfail", "uxs", "ki"}
-KindsAll == AllKinds
+KindsAll == AllKinds \ {"xfaild", "uxsd"}     \* (those two only arise through the expectedFailure decorator)
 NamesNone == {}
 Kinds6 == {"fail", "err", "skip", "xfail", "ki", "custom"}
+KindsXf == {"fail", "skip", "ki", "err", "xfail"}
 KindsTriple == {"ki", "err", "skip", "fail", "xfail"}
 Kinds4 == {"fail", "skip", "xfail", "ki"}
 KindsTwo == {"fail", "skip"}
